@@ -501,7 +501,11 @@ func verifC04RefParse(fs []string) []verifC04RefUser {
 		if p[2] != "-" {
 			for _, c := range strings.Split(p[2], "+") {
 				if !strings.Contains(c, "/") {
-					c += "/32"
+					if strings.Contains(c, ":") {
+						c += "/128"
+					} else {
+						c += "/32"
+					}
 				}
 				_, n, err := net.ParseCIDR(c)
 				if err != nil {
@@ -633,6 +637,9 @@ func (w *verifC04World) serve(q *verifC04Req) string {
 	}
 	hr := httptest.NewRequest(q.method, u, body)
 	hr.RemoteAddr = q.remote
+	if q.remote == "-" {
+		hr.RemoteAddr = ""
+	}
 	switch q.place {
 	case "basic":
 		hr.SetBasicAuth(q.user, q.pass)
@@ -703,6 +710,12 @@ func verifC04Exec(op string) string {
 		w.am.m = w.mgr
 		w.ref = verifC04RefParse(f[1:])
 		return "ok"
+	case "coreexclude": // run-time tightening of authHTTPExclude, through a real Core (core_test.go)
+		fn, ok := verifutil.Funcs["c04.coreExclude"].(func(string) string)
+		if !ok {
+			return "unavailable"
+		}
+		return fn(f[1])
 	case "reload": // configuration hot reload: same manager, new user table
 		w.mgr.ReloadInternalUsers(verifC04ParseUsers(f[1:]))
 		w.ref = verifC04RefParse(f[1:])
@@ -763,6 +776,11 @@ func verifC04PermSet(r *verifutil.Rand, i int) []verifC04User {
 		return []verifC04User{{user: "hashed", pass: "s3cret", stored: "sha256:" + verifC04Sha("s3cret"), perms: "api;playback;metrics"}}
 	case 6: // anonymous api only
 		return []verifC04User{{user: "any", perms: "api"}, {user: "m", pass: "mp", perms: "metrics;pprof"}}
+	case 8: // the stock configuration: administrative actions for anybody, but from the local machine only
+		return []verifC04User{
+			{user: "any", ips: "127.0.0.1+::1", perms: "api;metrics;pprof"},
+			{user: "any", perms: "publish;read;playback"},
+		}
 	case 7: // anonymous playback of one path; named users restricted by path and by IP
 		return []verifC04User{
 			{user: "any", perms: "playback@" + h("public/a")},
@@ -952,8 +970,13 @@ func verifC04Gen(r *verifutil.Rand, i int, thorough bool) []string {
 		}
 		reset += fmt.Sprintf(" U%s,%s,%s,%s", verifutil.HexS(u.user), verifutil.HexS(st), ips, u.perms)
 	}
-	// first: password rotation histories (one manager, same user, changing passwords, across hot reloads)
 	var ops []string
+	if i == 0 {
+		for _, sn := range []string{"api", "metrics", "pprof", "playback"} {
+			ops = append(ops, "reset", "coreexclude "+sn)
+		}
+	}
+	// first: password rotation histories (one manager, same user, changing passwords, across hot reloads)
 	for _, kind := range []string{"argon2", "sha256", "plain"} {
 		ops = append(ops, verifC04GenRotation(r, kind)...)
 	}
@@ -1002,6 +1025,12 @@ func verifC04Gen(r *verifutil.Rand, i int, thorough bool) []string {
 			q := &verifC04Req{srv: rt.srv, method: rt.method, tmpl: rt.path, path: verifC04Instantiate(r, rt.path),
 				query: verifC04Query(r, rt, rq.pp), place: id.place, user: id.user, pass: id.pass,
 				remote: r.Pick("10.1.2.3:5555", "192.168.9.9:4444", "10.1.2.3:5555"), xff: r.Chance(1, 4)}
+			// peers whose transport address has no parsable IP (zoned IPv6 link-local, unix socket, nothing) must
+			// not be taken for anybody; loopback peers are the ones the stock configuration admits
+			if i == 8 || r.Chance(1, 8) {
+				q.remote = r.Pick("127.0.0.1:5555", "[::1]:5555", "[fe80::1%eth0]:5555", "[fe80::1%25eth0]:5555", "-", "@", "garbage", "fe80::1%eth0", "10.1.2.3:5555")
+				q.xff = q.xff && r.Bool()
+			}
 			if id.place == "query" {
 				q.query = strings.TrimPrefix(q.query+"&user=admin&pass=adminpw", "&")
 			}
@@ -1077,7 +1106,7 @@ func TestVerifC04(t *testing.T) {
 	verifC04W = verifC04NewWorld()
 	defer verifC04W.close()
 	verifutil.Main(t, &verifutil.Harness{
-		ID: "C04", Exec: verifC04Exec, Gen: verifC04Gen, Quick: 10, Thorough: 60,
+		ID: "C04", Exec: verifC04Exec, Gen: verifC04Gen, Quick: 11, Thorough: 60,
 		Class: func(op, impl string) string {
 			f := strings.Fields(op)
 			if f[0] != "req" {
